@@ -24,6 +24,7 @@ func init() {
 }
 
 func runC07(c *eng.Ctx) {
+	defer runC07OOO(c)
 	p := c.P
 	f := c.Fn("tsdb:DefaultBlockPopulator.PopulateBlock")
 	// ---- R2 every input is read through its three readers, which are always released ----
